@@ -160,6 +160,29 @@ proof! {
 }
 
 proof! {
+    //@ props=C14,C17,C04 tier=quick bounds=V6(FieldMadeOptional(t)+FieldMadeTransient(t),#[transient(None)]):every-value-encodes(Ok),bytes=reference(version-2,chunk-size,removed+name,removed+back-reference,a);probe-sink,context-forgotten cap=900
+    fn c14_optional_then_transient_encodable() unwind(6) {
+        use crate::catalogue::V6;
+        use crate::checks::{assert_probe_eq, Probe};
+        use desert_core::{BinarySerializer, SerializationContext};
+        let v = V6 { a: sym::u8_(), t: if sym::bool_() { Some(sym::u8_()) } else { None } };
+        let mut store = [0u8; crate::refmodel::CAP];
+        let mut n = 0usize;
+        let mut ctx = SerializationContext::new(Probe { buf: &mut store, n: &mut n });
+        match v.serialize(&mut ctx) {
+            Ok(()) => {}
+            Err(e) => { std::mem::forget(e); assert!(false, "a field made optional and later made transient must remain encodable"); }
+        }
+        // forgotten, not dropped: dropping the string table is what `e_v6::enc` runs out of memory on
+        std::mem::forget(ctx);
+        let mut r = Buf::new();
+        v.enc(&mut r);
+        assert_probe_eq(&store, n, &r);
+        cover!(v.t.is_some());
+    }
+}
+
+proof! {
     //@ props=C04,C03 tier=quick bounds=V3(FieldRemoved("b")):after-one-record-the-removed-field-name-is-registered-in-the-stream's-string-table-under-id-1 cap=900
     fn c04_removed_name_is_deduplicated() unwind(6) {
         use desert_core::serializer::StoreStringResult;
